@@ -111,6 +111,12 @@ class PSeq:
         self.n, self.at, self.desc = n, at, desc
 
 
+class PClassDict:
+    """`cls.__dict__` of a (possibly symbolic) class value: the class's own namespace"""
+    def __init__(self, cid):
+        self.cid = cid
+
+
 class PKwargs:
     """**kwargs captured as a concrete name->value mapping plus an optional symbolic rest."""
     def __init__(self, items, rest=None):
